@@ -54,10 +54,51 @@ def _site(tb):
             site = os.path.relpath(fn, common.REPO) + ':' + fr.name
     return site or 'outside-lib'
 
+def rply_race_case(idx):
+    """the first-use race of `-j N` workers on rply's cache directory, made deterministic: the directory appears between rply's
+    `os.path.exists(cache_dir)` and its `os.makedirs(cache_dir)` (another worker has just created it)"""
+    out = {'idx': idx, 'ntags': 0, 'cpu': 0}
+    from lib import intexpr
+    cache = tempfile.mkdtemp(prefix='i18n-verif-c01r.')
+    saved_env = os.environ.get('XDG_CACHE_HOME')
+    os.environ['XDG_CACHE_HOME'] = cache
+    rdir = os.path.join(cache, 'rply')
+    orig_exists = os.path.exists
+    state = {'fired': False}
+    def exists(p):
+        if not state['fired'] and os.fspath(p) == rdir:
+            state['fired'] = True
+            os.makedirs(rdir, exist_ok=True)      # the other worker wins the race here
+            return False
+        return orig_exists(p)
+    try:
+        intexpr.create_lexer.cache_clear()
+        intexpr.create_parser.cache_clear()
+        os.path.exists = exists
+        try:
+            intexpr.Parser().parse('n != 1')
+            out['kind'] = 'ok' if state['fired'] else 'ok'
+            out['tags'] = ['rply-cache-race-simulated'] if state['fired'] else []
+        except BaseException as exc:     # noqa
+            out.update(kind='crash', exc=type(exc).__name__, site=_site(exc.__traceback__), msg=str(exc)[:200],
+                       tb=''.join(traceback.format_exception(type(exc), exc, exc.__traceback__))[-1500:])
+    finally:
+        os.path.exists = orig_exists
+        if saved_env is None:
+            os.environ.pop('XDG_CACHE_HOME', None)
+        else:
+            os.environ['XDG_CACHE_HOME'] = saved_env
+        intexpr.create_lexer.cache_clear()
+        intexpr.create_parser.cache_clear()
+        shutil.rmtree(cache, ignore_errors=True)
+    return out
+
 def run_case(case):
     """(index, data, ext, opts) → dict outcome; runs the real Checker.check in this worker process"""
     idx, data, ext, opts = case
     H = _worker['H']
+    if opts.get('special') == 'rply-cache-race':
+        return rply_race_case(idx)
     from lib import tags, ling
     sub = opts.get('subdir', '')
     d = os.path.join(_worker['dir'], sub if sub else 'plain')
@@ -321,6 +362,8 @@ def main():
             ext = os.path.splitext(name)[1]
             cases.append((len(cases), data, ext, {}))
             descr[len(cases) - 1] = 'corpus:' + name
+    cases.append((len(cases), b'', '.po', {'special': 'rply-cache-race'}))
+    descr[len(cases) - 1] = 'simulated race of two -j workers on rply\'s cache directory (the directory appears between exists() and makedirs())'
     bb = CAT.corpus(common.REPO)
     for name, data in bb:
         if rng.random() < (1.0 if chk.thorough else 0.35):
@@ -410,7 +453,7 @@ def main():
         # first use with -j: every worker builds the plural parser at the same moment; rply's on-disk cache does not exist yet
         for k in range(6):
             wd.write('race/p%d.po' % k, HG._wrap(HG._msg('', 'a%d' % k, 'b'), plural_forms='nplurals=2; plural=n != 1;'))
-        for k in range(40 if chk.thorough else 10):
+        for k in range(40 if chk.thorough else 12):
             runs.append((['-j', '6'] + ['race/p%d.po' % i for i in range(6)], '-j 6 with a fresh cache directory', 'ok', {'XDG_CACHE_HOME': os.path.join(wd.path, 'fresh-cache-%d' % k)}))
         n_special = len(runs)
         sample = rng.sample(cases, min(n_cli, len(cases)))
